@@ -120,7 +120,8 @@ PLAN = {
         runs=[dict(variant="hist", flavour="asan", quick=dict(cases=3000, size=100, shards=10, budget=40), thorough=dict(cases=100000, size=150, shards=12, budget=900)),
               dict(variant="bad", flavour="asan", quick=dict(cases=4000, size=60, shards=3, budget=40), thorough=dict(cases=60000, size=100, shards=4, budget=600)),
               dict(variant="file", flavour="asan", quick=dict(cases=6000, size=80, shards=3, budget=40), thorough=dict(cases=200000, size=120, shards=6, budget=900)),
-              dict(variant="large", flavour="asan", quick=dict(cases=48, size=100, shards=4, budget=45), thorough=dict(cases=4000, size=100, shards=16, budget=900))],
+              dict(variant="large", flavour="asan", quick=dict(cases=48, size=100, shards=4, budget=45), thorough=dict(cases=4000, size=100, shards=16, budget=900)),
+              dict(variant="churn", flavour="asan", quick=dict(cases=300, size=100, shards=3, budget=40), thorough=dict(cases=20000, size=100, shards=8, budget=900))],
     ),
     "C20": dict(
         rule=("a log handler is installed, stdout and stderr of the child are replaced by two memfds, then a history runs: valid "
